@@ -53,6 +53,12 @@ def case(g, tier, ci):
             ops.append({"op": "bp.removeSegMarker", "id": "b", "name": nm, "mid": r.choice([1, 2])})
         ops += [{"op": "bp.desc", "id": "b"}, {"op": "el.addBP", "id": "e", "ch": 1, "bp": "b"},
                 {"op": "el.getArrays", "id": "e", "time": False}]
+        if r.random() < 0.35:
+            # the SAME element forged, edited through the element, forged again (twice): the windows of the
+            # first forging must not linger anywhere
+            n = r.randint(2, 20)
+            ops += [{"op": "el.changeDur", "id": "e", "ch": 1, "name": r.choice(names) if names else "x", "dur": enc(g.dur(SR, n)), "all": False},
+                    {"op": "el.getArrays", "id": "e", "time": False}, {"op": "el.getArrays", "id": "e", "time": True}]
     return ops
 
 
